@@ -334,6 +334,33 @@ def check_formats_incoming_only(case, obs):
     return out
 
 
+def check_list_members_pre_state(case, obs, old, after):
+    """"extended with the formatted incoming members": the members of the first list merged by
+    the operation are formatted against the context as it was before the merge touched anything —
+    not against a destination list that is already growing."""
+    pre = obs.get('pre_formatted_list')
+    if not pre or obs['res'] != ['ok'] or obs.get('shares_anywhere') or not is_list(pre['members']):
+        return []
+    o, a = {'d': old}, {'d': after}
+    for k in pre['path']:
+        ho, o = get(o['d'], k) if is_map(o) else (False, None)
+        ha, a = get(a['d'], k) if is_map(a) else (False, None)
+        if not (ho and ha):
+            return []
+    if not (is_list(o) and is_list(a)) or opaque(a):
+        return []
+    n = len(o['l'])
+    want = pre['members']['l']
+    got = a['l'][n:n + len(want)]
+    if len(a['l']) >= n + len(want) and all(pv.pv_equal(x, y) for x, y in zip(a['l'][:n], o['l'])) \
+            and not all(pv.pv_equal(x, y) for x, y in zip(got, want)):
+        # (a later item may append more; only the members right after the old ones are judged)
+        return [fail('appends-after', f'{show(pre["path"])}: appended {got!r}, but the incoming members formatted '
+                                      f'against the context before the merge are {want!r}',
+                     'list-members-formatted-against-later-state')]
+    return []
+
+
 def check(case, obs):
     if obs.get('cyclic'):
         return []
@@ -344,6 +371,7 @@ def check(case, obs):
     if not obs.get('rerun_same', True):
         out.append(fail('harness', 'two runs of the same case gave different results', 'nondeterministic'))
     out += check_formats_incoming_only(case, obs)
+    out += check_list_members_pre_state(case, obs, old, after)
     if case['op'] == 'merge':
         out += check_merge(case, obs, old, inc, after)
     else:
